@@ -18,6 +18,9 @@ import (
 //   4. order of appearance: later wins; an imported sheet is substituted at its @import rule
 // ---------------------------------------------------------------------------------------------
 
+// maxImportDepth bounds the import chains the reference follows (the generator stays below 8).
+const maxImportDepth = 16
+
 // Rank values of step 1.
 const (
 	rankUA = iota
@@ -105,7 +108,7 @@ func (f *flattener) killItems(items []Item, why string) {
 		case "media":
 			f.killItems(it.Items, why)
 		case "import":
-			if s := f.doc.Files[it.File]; s != nil && f.depth < 8 {
+			if s := f.doc.Files[it.File]; s != nil && f.depth < maxImportDepth {
 				f.depth++
 				f.killItems(s.Items, why)
 				f.depth--
@@ -136,7 +139,7 @@ func (f *flattener) sheet(items []Item, origin, where string, hint, inMedia bool
 				continue // missing file: nothing to apply
 			}
 			f.depth++
-			if f.depth > 8 {
+			if f.depth > maxImportDepth {
 				panic("c03 ref: import chain too deep (cycle?)")
 			}
 			f.sheet(s.Items, origin, w+" @import "+it.File, hint, false)
